@@ -58,4 +58,23 @@ def wellFormedChars (cs : List Char) : Bool :=
 
 def wellFormed (s : String) : Bool := wellFormedChars s.toList
 
+/-- a divisibility chain of factors ≥ 2 -/
+def chainFrom : List Nat → Bool
+  | [] => true
+  | [a] => decide (2 ≤ a)
+  | a :: b :: r => decide (2 ≤ a) && b % a == 0 && chainFrom (b :: r)
+
+/-- the lists `abelian_invariants` can return: one `0` per free generator FIRST (the list is
+    sorted ascending), then the invariant factors ≠ 1, each dividing the next -/
+def reachableInvariants (invs : List Nat) : Bool := chainFrom (invs.dropWhile (· == 0))
+
+/-- the invariant fields of a well-formed entry are a list `abelian_invariants` can return
+    (vacuous for tokens that do not parse) -/
+def reachableChars (cs : List Char) : Bool :=
+  match parse cs with
+  | some (_, _, _, invs) => reachableInvariants invs
+  | none => true
+
+def reachable (s : String) : Bool := reachableChars s.toList
+
 end DSymVerif.Euc.Tab
